@@ -8,3 +8,4 @@ INVARIANT FinishedMeansRan
 INVARIANT Complete
 PROPERTY Termination
 CHECK_DEADLOCK FALSE
+VIEW View
